@@ -131,6 +131,13 @@ func consistent(abs, conc cty.Value) bool {
 // numeric bounds; length bounds), and the dynamic value.
 func abstraction(k kind, c content, conc cty.Value) cty.Value {
 	ty := typeOf(k)
+	if c.null {
+		// only an unknown without a not-null refinement stands for a null
+		if vf.Concretize(vf.Choice(2)) == 0 {
+			return cty.UnknownVal(ty)
+		}
+		return cty.DynamicVal
+	}
 	switch vf.Concretize(vf.Choice(4)) {
 	case 0:
 		return cty.UnknownVal(ty)
@@ -152,6 +159,7 @@ func abstraction(k kind, c content, conc cty.Value) cty.Value {
 		}
 		return cty.UnknownVal(ty).Refine().NotNull().NumberRangeLowerBound(cty.NumberIntVal(0), true).NumberRangeUpperBound(cty.NumberIntVal(2), true).NewValue()
 	case kList, kMap:
+		vf.Assume(conc.LengthInt() >= 1) // the length refinement must hold of the concrete content
 		return cty.UnknownVal(ty).Refine().NotNull().CollectionLengthLowerBound(1).CollectionLengthUpperBound(2).NewValue()
 	}
 	return cty.UnknownVal(ty).RefineNotNull()
@@ -165,7 +173,7 @@ func H_Unknown() {
 	c := newContent(slen)
 	id := func(v cty.Value) cty.Value { return v }
 	placement := vf.Concretize(vf.Choice(2))
-	conc := mkVal(sh.k, c, c, 0, id)
+	conc := mkVal(sh.k, c, c, placement, id) // same structure as the abstract value below
 	var abs cty.Value
 	if placement == 0 {
 		abs = abstraction(sh.k, c, conc)
